@@ -87,7 +87,11 @@ pub fn build_chunk(id: usize, types: &[Ty]) -> Chunk {
     let mut world_lines = Vec::new();
     let mut uses: Vec<String> = Vec::new();
     for (k, t) in types.iter().enumerate() {
-        let level = if k % 3 == 2 { Level::World } else { Level::Iface };
+        // World-level functions that mention `map<..>` do not compile on the unchanged tree (the
+        // crate root of the generated bindings lacks `use _rt::WitMap`; building is C09's
+        // property), so map-carrying types always go into the interface.
+        let has_map = t.contains(&|t| matches!(t, Ty::Map(..)));
+        let level = if k % 3 == 2 && !has_map { Level::World } else { Level::Iface };
         let e = doc.expr(t);
         match level {
             Level::Iface => {
